@@ -30,11 +30,13 @@ def place(demo, wt):
         # rest packages: decide by what the demo uses
         target = "replica/rest" if "replica.NewServer" in src or "jiva/replica\"" in src else "controller/rest"
     if target is None:
-        raise SystemExit("cannot place demo %s (package %s)" % (demo, pkg))
+        # a demonstration with its own package (e.g. a whole-system test with TestMain): its own directory
+        target = pkg
+        os.makedirs(os.path.join(wt, target), exist_ok=True)
     dst = os.path.join(wt, target, os.path.basename(demo))
     shutil.copyfile(demo, dst)
     tests = re.findall(r"^func (Test\w+)\(", src, re.M)
-    tags = "debug" if re.search(r"^//go:build .*\bdebug\b", src, re.M) else ""
+    tags = "debug" if (re.search(r"^//go:build .*\bdebug\b", src, re.M) or "-tags debug" in src) else ""
     return target, tests, tags
 
 
@@ -72,6 +74,7 @@ def main():
         # the demos must not be compiled into the harness: remove them before running the checks
         for (target, tests, tags), d in zip(placed, demos):
             os.remove(os.path.join(wt, target, os.path.basename(d)))
+        # directories copied along with a patch (e.g. a sysdemo main package) are not part of the change
         for pid in pids:
             t0 = time.time()
             rc, out = sh([os.path.join(VERIF, "bin", "vcheck"), pid, "--tier", "quick"], cwd=VERIF, timeout=2400,
